@@ -17,7 +17,9 @@ RACE_RULE = (" stagerace (no model run, oracles on facts): the real Stage with c
              "transit - arrives on another connection; (storm) 2..11 files in predecessor chains, every part (1 in 5 twice) sent by 1..6 goroutines in a "
              "random order; at quiescence: every delivered file has the announced content of one version and the hash of its last log record, nothing is "
              "logged twice or before its predecessor, every complete file is delivered; (ready) a restart on a stage that holds a complete, unvalidated "
-             "16..40 MiB file: from the moment the gate keeper answers 'ready' again no recovered file may still be unvalidated.")
+             "16..40 MiB file: from the moment the gate keeper answers 'ready' again no recovered file may still be unvalidated; (late) a duplicate of a file's "
+             "first part - intact or damaged - stalls before its first byte while the file completes on another connection and is delivered or held; "
+             "then the stalled body arrives: what is delivered / held must still be the announced content.")
 
 STAGE_RULE = ("stage: seeded operation sequences against a real Stage on a temp directory with the real log.FileIO: 1..4 files (1..24 bytes, nested names, renames, "
               "predecessor chains; profiles: plain protocol, new versions of a name, corruption (flipped bytes, short/failing readers, wrong announced hash, "
@@ -49,7 +51,7 @@ E2E_NOTE = ("Trusted: Coq kernel (no axioms), harness (the in-process transport 
 
 def e2e_suite(profiles, oracles, n=None):
     env = {"VERIF_E2E_PROFILES": profiles}
-    d = dict(name="e2e", pkg="./client/", test="TestVerifE2E", min_lines=min(8, n or 10), timeout_quick=900, oracles=oracles, diffs=[],
+    d = dict(name="e2e", pkg="./client/", test="TestVerifE2E", min_lines=min(8, n or 10), timeout_quick=900, oracles=oracles, diffs=[], confirm="e2e",
              env_quick=dict(env, VERIF_E2E_N=n or 10), env_thorough=dict(env, VERIF_E2E_N=(n or 10) * 10))
     return d
 
@@ -171,7 +173,7 @@ PROPS = {
         coq="Properties/C01.v",
         suites=[dict(STAGE_SUITE, oracles=["delivered_content_not_validated"],
                      diffs=["finals", "log", "stage-files", "status", "receive"]),
-                race_suite(["delivered_content_not_validated"])],
+                race_suite(["delivered_content_not_validated", "stalled_duplicate_wrote_into_settled_file"])],
         rule=STAGE_RULE + RACE_RULE,
         level_text=("Proof: invariant over ALL receiver histories (any part order/grouping, duplicates, corruption in transit, overwritten partials, queries, "
                     "cleaning, timers, restarts at quiescence) in which each name is announced with one hash: every file in the final directory hashes to the "
@@ -198,7 +200,7 @@ PROPS = {
     ),
     "C05": dict(
         coq="Properties/C05.v",
-        suites=[dict(STAGE_SUITE, oracles=["logged_twice", "logged_twice_after_record_aged_out", "logged_twice_single_version", "delivered_version_not_recognised", "superseded_version_not_recognised"], diffs=["finals", "log", "received", "status", "stage-files"]),
+        suites=[dict(STAGE_SUITE, oracles=["logged_twice", "logged_twice_after_record_aged_out", "logged_twice_single_version", "delivered_version_not_recognised", "delivered_version_not_recognised_single_version", "superseded_version_not_recognised"], diffs=["finals", "log", "received", "status", "stage-files"]),
                 race_suite(["logged_twice"])],
         rule=STAGE_RULE + RACE_RULE,
         level_text=("Proof (step level): a finalisation appends at most one record and changes the final directory only together with it. The history-level "
@@ -214,8 +216,12 @@ PROPS = {
                      diffs=["stage-files", "companions"]),
                 dict(name="prune", pkg="./stage/", test="TestVerifPrune", min_lines=100,
                      oracles=["prune_removed_file", "prune_removed_young_directory", "prune_removed_non_empty_directory"],
+                     diffs=["prune-left"]),
+                dict(name="prunehttp", pkg="./main/", test="TestVerifPruneHTTP", min_lines=40,
+                     oracles=["prune_removed_file", "prune_removed_young_directory", "prune_removed_non_empty_directory"],
                      diffs=["prune-left"])],
-        rule=STAGE_RULE + (" prune: the real Stage.Prune(1h) on generated directory trees (up to 10 entries, depth <= 5, files and directories, each old (3 h) or "
+        rule=STAGE_RULE + (" prunehttp: the same through the real serverApp: PUT /prune?block&minage=3600&source=... on the internal port, trees under the "
+                           "source's stage and final directories (incl. a directory emptied a moment ago), compared with the model's prune. prune: the real Stage.Prune(1h) on generated directory trees (up to 10 entries, depth <= 5, files and directories, each old (3 h) or "
                            "young (2 min), ages set bottom-up with Chtimes, under the stage root or the final directory, root old in 1/6 of the cases) plus directed "
                            "trees (young parent of old empty children, collapsing old chains, file at the bottom of an old chain); the surviving paths are compared "
                            "with the model's prune; non-trivial = at least three entries; distinct = distinct trees"),
